@@ -420,100 +420,211 @@ var dataSeg = regexp.MustCompile(`^data-`)
 func c02DataAttr(c *Ctx) {
 	R := c.R
 	fn := c.P.Func(load.ModPath, "isDataAttribute")
-	if fn == nil {
+	if fn == nil || len(fn.Params) != 1 {
 		R.Unknown("C02.R6", "isDataAttribute", "isDataAttribute", "", "function not found")
 		return
 	}
+	pos := c.P.Pos(fn.Pos())
 	vars := pats.RegexpVars(c.P.Main)
 	pats.FindWrites(vars, c.P.Pkgs)
 	by := map[string]*pats.Var{}
 	for _, v := range vars {
 		by[v.Name] = v
 	}
-	// which regexps does isDataAttribute use, on which value, and with which polarity?
 	A := model.NewAnalysis(fn)
 	translateAll(A)
-	type use struct {
-		v     *pats.Var
-		onSeg bool
+	F := A.ReturnsTrue()
+	if F == nil {
+		R.Unknown("C02.R6", "shape", "isDataAttribute", pos, "the function is not an acyclic chain of tests (language not computed)")
+		return
 	}
-	var uses []use
-	splitSep := ""
-	splitOnce := false
-	for _, b := range fn.Blocks {
-		for _, in := range b.Instrs {
-			cl, ok := in.(*ssa.Call)
-			if !ok {
-				continue
+	val := ssa.Value(fn.Params[0])
+	// alphabet: the regexps used plus the documented form
+	b := relang.NewBuilder()
+	b.AddString("data-xmlAZ;az09")
+	b.AddPattern(`^data-[^A-Z;]+$`)
+	used := map[int]bool{}
+	F.Atoms(used)
+	type reTest struct {
+		v   *pats.Var
+		arg ssa.Value
+	}
+	tests := map[int]reTest{}
+	for i := range used {
+		at := A.Atoms[i]
+		if cl, ok := at.Resolve(at.X).(*ssa.Call); ok && at.Kind == "val" && isMatchString(cl.Common()) {
+			if u, ok := cl.Common().Args[0].(*ssa.UnOp); ok {
+				if g, ok := u.X.(*ssa.Global); ok && by[g.Name()] != nil {
+					v := by[g.Name()]
+					if !v.Const || len(v.Writes) > 0 {
+						R.Unknown("C02.R6", "pattern:"+v.Name, "var "+v.Name, c.P.Pos(v.Pos), "pattern not constant or variable reassigned")
+						return
+					}
+					b.AddPattern(v.Pattern)
+					tests[i] = reTest{v, cl.Common().Args[1]}
+				}
 			}
-			if isMatchString(cl.Common()) {
-				if u, ok := cl.Common().Args[0].(*ssa.UnOp); ok {
-					if g, ok := u.X.(*ssa.Global); ok && by[g.Name()] != nil {
-						uses = append(uses, use{by[g.Name()], cl.Common().Args[1] != ssa.Value(fn.Params[0])})
+		}
+	}
+	a := b.Build()
+	all := relang.All(a)
+	hasSep := func(sep string) *relang.DFA { return relang.Concat(all, relang.Literal(a, sep), all) }
+	// pre(x, L) = { val | x ∈ L } for the derived strings the function looks at
+	var pre func(x ssa.Value, L *relang.DFA) (*relang.DFA, string)
+	splitOf := func(x ssa.Value) (sep string, n int64, ok bool) {
+		cl, isC := x.(*ssa.Call)
+		if !isC {
+			return "", 0, false
+		}
+		if sp := isCallTo(cl, "strings.Split"); sp != nil && sp.Common().Args[0] == val {
+			s, okS := constString(sp.Common().Args[1])
+			return s, -1, okS && s != ""
+		}
+		if sp := isCallTo(cl, "strings.SplitN"); sp != nil && sp.Common().Args[0] == val {
+			s, okS := constString(sp.Common().Args[1])
+			k, okK := sp.Common().Args[2].(*ssa.Const)
+			if okS && okK && s != "" {
+				return s, k.Int64(), true
+			}
+		}
+		return "", 0, false
+	}
+	selfBorder := func(sep string) bool { // a proper prefix of sep that is also a suffix
+		for k := 1; k < len(sep); k++ {
+			if sep[:k] == sep[len(sep)-k:] {
+				return true
+			}
+		}
+		return false
+	}
+	pre = func(x ssa.Value, L *relang.DFA) (*relang.DFA, string) {
+		if x == val {
+			return L, ""
+		}
+		switch v := x.(type) {
+		case *ssa.UnOp: // element of a Split result
+			ia, ok := v.X.(*ssa.IndexAddr)
+			if !ok {
+				break
+			}
+			idx, ok := ia.Index.(*ssa.Const)
+			sep, n, okS := splitOf(ia.X)
+			if !ok || !okS || selfBorder(sep) {
+				break
+			}
+			noSep := hasSep(sep).Complement()
+			lit := relang.Literal(a, sep)
+			switch {
+			case idx.Int64() == 1 && n == 2:
+				// everything after the first separator
+				return relang.Concat(noSep, lit, L), ""
+			case idx.Int64() == 1 && n < 0:
+				// the text between the first and the second separator
+				return relang.Concat(noSep, lit, relang.Inter(L, noSep), relang.Opt(relang.Concat(lit, all))), ""
+			case idx.Int64() == 0:
+				return relang.Union(relang.Inter(L, noSep), relang.Concat(relang.Inter(L, noSep), lit, all)), ""
+			}
+		case *ssa.Call:
+			if tp := isCallTo(v, "strings.TrimPrefix"); tp != nil && tp.Common().Args[0] == val {
+				if p, ok := constString(tp.Common().Args[1]); ok {
+					lit := relang.Literal(a, p)
+					starts := relang.Concat(lit, all)
+					return relang.Union(relang.Concat(lit, L), relang.Diff(L, starts)), ""
+				}
+			}
+		case *ssa.Slice:
+			if v.X == val && v.High == nil && v.Max == nil {
+				if lo, ok := v.Low.(*ssa.Const); ok {
+					// byte offset: only sound to model when the skipped prefix is ASCII, which a dominating whole-value
+					// test must establish — approximated by skipping that many arbitrary runes (ASCII case is exact)
+					parts := []*relang.DFA{}
+					for k := int64(0); k < lo.Int64(); k++ {
+						parts = append(parts, relang.AnyRune(a))
+					}
+					parts = append(parts, L)
+					return relang.Concat(parts...), ""
+				}
+			}
+		}
+		return nil, "the tested string " + stripIDs(A.Sym.Of(x)) + " is not a modelled part of the key"
+	}
+	var eval func(f *pa.F) (*relang.DFA, string)
+	eval = func(f *pa.F) (*relang.DFA, string) {
+		switch f.Op {
+		case 'c':
+			if f.C {
+				return all, ""
+			}
+			return relang.Empty(a), ""
+		case '!':
+			d, why := eval(f.Kids[0])
+			if d == nil {
+				return nil, why
+			}
+			return d.Complement(), ""
+		case '&', '|':
+			var acc *relang.DFA
+			for _, k := range f.Kids {
+				d, why := eval(k)
+				if d == nil {
+					return nil, why
+				}
+				switch {
+				case acc == nil:
+					acc = d
+				case f.Op == '&':
+					acc = relang.Inter(acc, d)
+				default:
+					acc = relang.Union(acc, d)
+				}
+			}
+			return acc, ""
+		case 'a':
+			at := A.Atoms[f.Atom]
+			if t, ok := tests[f.Atom]; ok {
+				return pre(t.arg, relang.MustRegexp(t.v.Pattern, a))
+			}
+			// len(strings.Split…(val, sep)) == k
+			if at.Kind == "eq" {
+				x, y := at.Resolve(at.X), at.Resolve(at.Y)
+				if _, isC := x.(*ssa.Const); isC {
+					x, y = y, x
+				}
+				if k, isC := y.(*ssa.Const); isC && isLenCall(x) {
+					if sep, n, ok := splitOf(x.(*ssa.Call).Common().Args[0]); ok && !selfBorder(sep) {
+						noSep := hasSep(sep).Complement()
+						switch {
+						case k.Int64() == 1:
+							return noSep, ""
+						case k.Int64() == 2 && n == 2:
+							return hasSep(sep), ""
+						}
 					}
 				}
 			}
-			if sp := isCallTo(cl, "strings.Split"); sp != nil {
-				splitSep, _ = constString(sp.Common().Args[1])
-			}
-			if sp := isCallTo(cl, "strings.SplitN"); sp != nil {
-				splitSep, _ = constString(sp.Common().Args[1])
-				if k, ok := sp.Common().Args[2].(*ssa.Const); ok && k.Int64() == 2 {
-					splitOnce = true
-				} else {
-					splitSep = "" // other counts are not modelled
-				}
-			}
+			return nil, "condition " + stripIDs(at.Key) + " is not a modelled test of the key"
 		}
+		return nil, "unexpected formula"
 	}
-	pos := c.P.Pos(fn.Pos())
-	if len(uses) != 3 || splitSep != "data-" {
-		R.Unknown("C02.R6", "shape", "isDataAttribute", pos, fmt.Sprintf("expected three regexp tests and a Split/SplitN(…,2) on \"data-\", found %d tests and separator %q (shape changed: language not computed)", len(uses), splitSep))
+	acc, why := eval(F)
+	if acc == nil {
+		R.Unknown("C02.R6", "shape", "isDataAttribute", pos, why+" (language not computed)")
 		return
 	}
-	b := relang.NewBuilder()
-	b.AddString("data-xmlAZ;az09")
-	var whole, segNeg []*pats.Var
-	for _, u := range uses {
-		if !u.v.Const || len(u.v.Writes) > 0 {
-			R.Unknown("C02.R6", "pattern:"+u.v.Name, "var "+u.v.Name, c.P.Pos(u.v.Pos), "pattern not constant or variable reassigned")
-			return
-		}
-		b.AddPattern(u.v.Pattern)
-		if u.onSeg {
-			segNeg = append(segNeg, u.v)
-		} else {
-			whole = append(whole, u.v)
-		}
-	}
-	b.AddPattern(`^data-[^A-Z;]+$`)
-	a := b.Build()
-	// accepted = whole-regexps(val) ∧ val = "data-"·seg·(ε | "data-"·Σ*) with seg free of "data-" ∧ no segNeg regexp matches seg
-	acc := relang.All(a)
-	for _, v := range whole {
-		acc = relang.Inter(acc, relang.MustRegexp(v.Pattern, a))
-	}
-	seg := relang.MustRegexp(`data-`, a).Complement() // strings not containing "data-"
-	for _, v := range segNeg {
-		seg = relang.Inter(seg, relang.MustRegexp(v.Pattern, a).Complement())
-	}
-	dd := relang.Literal(a, "data-")
-	shape := relang.Concat(dd, seg, relang.Opt(relang.Concat(dd, relang.All(a))))
-	if splitOnce {
-		// SplitN(val, "data-", 2): the checked segment is everything after the first "data-"
-		seg = relang.All(a)
-		for _, v := range segNeg {
-			seg = relang.Inter(seg, relang.MustRegexp(v.Pattern, a).Complement())
-		}
-		shape = relang.Concat(dd, seg)
-	}
-	// values with no second "data-" at all have len(rest)==2 as well; values not starting with data- are excluded by `whole`
-	acc = relang.Inter(acc, shape)
 	doc := relang.Diff(relang.MustRegexp(`^data-[^A-Z;]+$`, a), relang.MustRegexp(`^data-xml.+`, a))
 	ok, w := relang.Subset(acc, doc)
-	o := R.Check(ok, "C02.R6", "language", "isDataAttribute: accepted key language", pos, "⊆ data-<non-empty, no upper case, no ';', not xml…>", "accepts a key outside the documented data-* form (only the text up to the next \"data-\" is checked)")
+	o := R.Check(ok, "C02.R6", "language", "isDataAttribute: accepted key language", pos, "⊆ data-<non-empty, no upper case, no ';', not xml…>", "accepts a key outside the documented data-* form")
 	if !ok {
 		o.Witness = w
 	}
-	R.Analysed["isDataAttribute"] = map[string]any{"whole_value_tests": len(whole), "segment_tests": len(segNeg)}
+	R.Analysed["isDataAttribute"] = map[string]any{"regexp_tests": len(tests), "condition": stripIDs(A.Str(F)), "accepted_language_states": acc.N()}
+}
+
+func isLenCall(v ssa.Value) bool {
+	cl, ok := v.(*ssa.Call)
+	if !ok {
+		return false
+	}
+	bi, ok := cl.Common().Value.(*ssa.Builtin)
+	return ok && bi.Name() == "len"
 }
